@@ -434,7 +434,9 @@ def _impl_sd(c):
             continue
         v = _mk_view(sd, keys, vals, c.get("tuples", []), st.enc, lambda i: st.fs[i])
         v["res"] = r
-        v["attrs"] = sorted([k, st.enc(x)] for k, x in vars(sd).items() if k not in hidden)
+        # name attributes of the instance, restricted to the names of this history's universe (other
+        # instance attributes, e.g. private bookkeeping, are not the property's business)
+        v["attrs"] = sorted([k, st.enc(x)] for k, x in vars(sd).items() if k not in hidden and k in keys)
         v["default"] = default_now()
         v["call"] = call_now()
         v["getattr"] = [_res(lambda: _val(st.enc(getattr(sd, k)))) for k in keys]
